@@ -135,8 +135,21 @@ def gate_definition(path: Path) -> str:
     outer_text = [ast.unparse(s) for s in outer.body]
     if "required = config.mode == 'require'" not in outer_text:
         raise TranslationBroken(site, "`required = config.mode == 'require'` not found")
-    cache_stmt = "cache = NonceCache(ttl_seconds=config.skew_seconds, capacity=config.replay_capacity) if config.enable_replay_cache else None"
-    if cache_stmt not in outer_text:
+    # cache = NonceCache(ttl_seconds=<expr>, capacity=<expr>) if config.enable_replay_cache else None
+    # The cache is an oracle in the C22 model (its ttl / capacity are property C23): only the shape
+    # "a NonceCache when enabled, None otherwise" is required here; the argument expressions are free.
+    cache_ok = False
+    for s in outer.body:
+        if isinstance(s, ast.Assign) and len(s.targets) == 1 and isinstance(s.targets[0], ast.Name) and s.targets[0].id == "cache":
+            v = s.value
+            cache_ok = (
+                isinstance(v, ast.IfExp)
+                and ast.unparse(v.test) == "config.enable_replay_cache"
+                and isinstance(v.orelse, ast.Constant) and v.orelse.value is None
+                and isinstance(v.body, ast.Call) and isinstance(v.body.func, ast.Name) and v.body.func.id == "NonceCache"
+                and not v.body.args and sorted(k.arg or "" for k in v.body.keywords) == ["capacity", "ttl_seconds"]
+            )
+    if not cache_ok:
         raise TranslationBroken(site, "the replay-cache construction changed shape")
     fn = find_function(outer, "gate", site)
     body = body_without_docstring(fn)
